@@ -385,7 +385,11 @@ impl Display for SequencedSegment {
 
 impl StreamSocket {
     fn new(capacity: usize) -> (Self, mpsc::Receiver<SequencedSegment>, BidiFlowControl) {
-        let (tx, rx) = mpsc::channel(capacity);
+        // Data segments are bounded by `capacity` flow-control credits; the one
+        // extra slot is for the FIN, which takes no credit and must never find
+        // the queue full (nothing would re-drain the reorder buffer, and the
+        // reader would never see EOF).
+        let (tx, rx) = mpsc::channel(capacity + 1);
         let flow_control = BidiFlowControl::new(capacity);
         let sock = Self {
             buf: IndexMap::new(),
